@@ -23,6 +23,7 @@ class Clock:
         self.on_wait = None        # harness callback(now, duration) before the time advances
         self.event_instances = 0
         self.time_calls = 0
+        self.read_cost = 0.0       # virtual seconds that pass with every reading of the clock (0: time only passes in waits)
 
     def reset(self, now=1_000_000.0):
         self.active = True
@@ -31,6 +32,7 @@ class Clock:
         self.waits = []
         self.on_unbounded = None
         self.on_wait = None
+        self.read_cost = 0.0
 
 
 CLOCK = Clock()
@@ -39,7 +41,10 @@ CLOCK = Clock()
 def vtime():
     if CLOCK.active:
         CLOCK.time_calls += 1
-        return CLOCK.now
+        now = CLOCK.now
+        if CLOCK.read_cost and threading.current_thread() is CLOCK.loop_thread:
+            CLOCK.now = now + CLOCK.read_cost     # a running clock: two consecutive readings differ
+        return now
     return _real_time()
 
 
